@@ -9,15 +9,18 @@ for d in sorted(glob.glob('/verif/seeded/*/')):
     h = m['history']
     head = h.split(';')[0]
     first = 'missed' if ('MISSED' in head or 'INCONCLUSIVE' in head) else 'caught'
-    rnd = 1 if n[-1] in 'ab' else (2 if n[-1] in 'cde' else 3)
+    rnd = {'a': 1, 'b': 1, 'c': 2, 'd': 2, 'e': 2, 'f': 3, 'g': 3, 'h': 4, 'i': 4, 'j': 5, 'k': 5}[n[-1]]
     rows.append((n, ', '.join(m['changed_files']), first, h, rnd, ', '.join(m.get('detected_by', []))))
-cnt = {r: [sum(1 for x in rows if x[4] == r), sum(1 for x in rows if x[4] == r and x[2] == 'missed')] for r in (1, 2, 3)}
+cnt = {r: [sum(1 for x in rows if x[4] == r), sum(1 for x in rows if x[4] == r and x[2] == 'missed')] for r in (1, 2, 3, 4, 5)}
+retired = sorted(os.path.basename(d.rstrip('/')) for d in glob.glob('/verif/retired/*/'))
 out = [f'''
 ## 9. Seeded changes: which checks catch which
 
 {len(rows)} changes to go-gorm/gorm were written by fresh sub-agents that saw only the text of one
 property and a scratch worktree (never /verif): {cnt[1][0]} in a first round (two per property), {cnt[2][0]} in a second
-(three per property) and {cnt[3][0]} in a third (two per property). From round 2 on the agents were told which
+(three per property), {cnt[3][0]} in a third, {cnt[4][0]} in a fourth and {cnt[5][0]} in a fifth (two per property each; a property
+has fewer where an agent delivered only one change that passed the whole suite, where a delivered change
+could not be confirmed, or where a change was retired, see below). From round 2 on the agents were told which
 functions earlier rounds had changed and were asked for other mechanisms: error paths, second uses of a
 handle / record / destination / cache, unusual schemas, call orders. Each change was confirmed by
 `bin/confirm_mutant` in a scratch worktree (its demonstration passes on the unchanged tree; with the
@@ -26,11 +29,15 @@ change both modules build, the full existing suite passes, the demonstration fai
 re-runs the property's check against every change.
 
 **Missed by the check as it stood when the change arrived: round 1: {cnt[1][1]} of {cnt[1][0]}; round 2: {cnt[2][1]} of {cnt[2][0]};
-round 3: {cnt[3][1]} of {cnt[3][0]}.** With the exceptions listed at the end, every miss was a gap in the workload, not
+round 3: {cnt[3][1]} of {cnt[3][0]}; round 4: {cnt[4][1]} of {cnt[4][0]}; round 5: {cnt[5][1]} of {cnt[5][0]}.** With the exceptions listed at the end, every miss was a gap in the workload, not
 in the oracle: the oracle decided correctly as soon as the input was produced. All {len(rows)} are caught by the
 quick tier now (last column: the check that fires). Patches were re-based (and re-confirmed) where a
 repair of gorm touched the same lines (C04-d, C11-b, C11-d, C11-e, C14-e, C17-b). Two round-3 changes
-repeat earlier ones (C07-f = C07-e, C14-f = C14-e).
+repeat earlier ones (C07-f = C07-e, C14-f = C14-e), as do some of round 4 (C02-i = C02-g, C07-i = C07-e,
+C14-h = C14-e, C11-h = C08-c seen from C11, C09-i and C17-h close to C09-f and C17-e/f): independent
+testers keep finding the same weak spots, which is itself information. Retired (kept under
+`/verif/retired/`, not part of the matrix): {', '.join(retired) or 'none'} - a change whose effect disappeared when
+the defect found through it was repaired in gorm (its meta.json says how it was caught on the tree before the repair).
 
 | seeded change | files | at first | what caught it / what had to be added | fires |
 |---|---|---|---|---|''']
